@@ -103,6 +103,16 @@ CHECKS = {
               "interior knot of full multiplicity, non-open knot vectors, lower_order on periodic objects."),
         note=TB + " C05: nestedness of spline spaces under degree elevation is not proved; np.linalg.inv/spsolve are modelled by the exact solve; tolerance of the control-point comparison 1e-7.",
         design='DESIGN.md section 8, C05'),
+    'C07': dict(
+        engine='objdiff',
+        technique='Coq proof (restriction of B-splines to a knot sub-range; slice matrix through the lifting lemma, any pardim) + differential run of the extracted transcription of split (incl. periodic roll) vs the implementation',
+        text=("Theorems in Properties/C07.v: on the domain of a piece that keeps knots a..a+m+q the full basis row is the piece's row at columns a..a+m-1 (local support, both sides, any "
+              "multiplicity), hence the control net sliced along any direction of any-pardim object, with the piece's basis, evaluates to the original. PARTIAL: the slice arithmetic of "
+              "split (cuts at full-multiplicity knots, tiling), BSplineBasis.roll / the periodic branch, append and subdivide are transcribed (Model/Split.v) and tied by correspondence; "
+              "the statement itself is evaluated on the implementation: number and domains of pieces tile the domain (one full period from the first split point; single point -> single "
+              "object), pieces non-periodic, each piece equals the original at random parameters of its sub-interval, split-then-append and subdivide reproduce the map."),
+        note=TB + " C07: known findings for periodic directions with fewer than order+continuity functions and for split at end() of non-open bases.",
+        design='DESIGN.md section 8, C07'),
 }
 
 PENDING_REASON = "not claimed in this revision: model/theorems for this property are still being built (see DESIGN.md section 8 for the plan)"
